@@ -1,5 +1,5 @@
 (* Graph admission (graph.go:212-283): name resolution (findStep/addEdge) followed by the Kahn
-   cycle check.  Model only; the theorem is in AdmitProof.v. *)
+   cycle check.  Model only; the theorem is in AcceptProof.v. *)
 From Coq Require Import List Arith Bool PeanoNat String.
 Import ListNotations.
 From BD.Graph Require Import Kahn.
@@ -40,7 +40,7 @@ Definition edges (ss : list gstep) : option (list (nat * nat)) := edges_from ss 
 
 Inductive verdict := VOk | VMissing | VCycle.
 
-Definition admit (ss : list gstep) : verdict :=
+Definition gaccept (ss : list gstep) : verdict :=
   match edges ss with
   | None => VMissing
   | Some E => if has_cycle (List.length ss) E then VCycle else VOk
